@@ -122,7 +122,9 @@ class XRayTransform2D(LinearOperator):
 
     def back_project(self, y: ArrayLike) -> snp.Array:
         """Compute X-ray back projection"""
-        return XRayTransform2D._back_project(y, self.x0, self.dx, self.nx, self.y0, self.angles)
+        return XRayTransform2D._back_project(
+            y, self.x0, self.dx, self.nx, self.y0, self.angles
+        ).astype(self.input_dtype)
 
     @staticmethod
     @partial(jax.jit, static_argnames=["ny"])
